@@ -1,4 +1,4 @@
-# memfault-insert-after-clear (family replay): asan
+# memfault-insert-after-clear (family exhaustive): asan
 salloc 0 2 2
 salloc 1 2 2
 sins 0 0 0
